@@ -349,6 +349,72 @@ func run(c *mc.Ctx, u mc.Unit) {
 		c.NonTrivial()
 	}
 	c.Obs("%s: %d bridges, %d L1 info leaves, %d covered (bridge, leaf) pairs", scen, nBridges, len(leaves), nCovered)
+	l2ReorgEpilogue(c, ctx, st, svc, w, p.Ops, scen, leaves)
+}
+
+// l2ReorgEpilogue: the L2 chain is reorged from the block of its FIRST bridge and comes back with that bridge replaced by
+// another transaction (every later L2 event re-included unchanged). L1 is untouched: its verified batches and L1 info leaves
+// still carry the local exit roots of the dropped fork. A local exit root of the old fork that holds more than k deposits
+// commits to the OLD bridge k: it covers a bridge of the new fork only where the two forks have the same leaf. Whatever
+// index the lookup answers for a bridge of the new fork must cover it in that sense; an error is always allowed.
+func l2ReorgEpilogue(c *mc.Ctx, ctx context.Context, st *world.Stores, svc *bridgeservice.BridgeService, w *world.World,
+	ops []world.Op, scen string, leaves []*world.InfoLeaf) {
+	if len(w.L2Deps) == 0 || w.L2Deps[0].Block == 0 {
+		return
+	}
+	ops2 := append([]world.Op{}, ops...)
+	for i, o := range ops2 {
+		if o.Kind == world.L2Deposit {
+			ops2[i].A = (o.A + 2) % 4 //nolint:mnd // another field variant with the same destination network
+			break
+		}
+	}
+	w2, err := world.Build(ops2)
+	if err != nil || len(w2.L2Blocks) != len(w.L2Blocks) || len(w2.L2Deps) != len(w.L2Deps) {
+		return
+	}
+	k := w.L2Deps[0].Block
+	if err := st.L2Bridge.VerifStore().Reorg(ctx, k); err != nil {
+		c.Failf("world-sanity/l2-store-reorg-fails", "%s: Reorg(%d): %v", scen, k, err)
+		return
+	}
+	last := uint64(0)
+	for _, b := range w2.L2Blocks {
+		if b.Num < k {
+			continue
+		}
+		if err := w2.LoadL2Block(ctx, st, b); err != nil {
+			c.Failf(world.LoadKey(err, "world-sanity/l2-store-rejects-block"), "%s after Reorg(%d): %v", scen, k, err)
+			return
+		}
+		last = b.Num
+	}
+	if err := w2.CheckL2(ctx, st, last); err != nil {
+		c.Failf("world-sanity/l2-store-differs-from-reference", "%s after Reorg(%d): %v", scen, k, err)
+		return
+	}
+	c.Witness("l2_reorg_epilogues")
+	for _, d := range w2.L2Deps {
+		c.AddEvals(1)
+		who := fmt.Sprintf("%s, then L2 reorged from block %d and bridge 0 replaced: bridge network=%d deposit_count=%d", scen, k, d.Net, d.Count)
+		code, body := call(svc.L1InfoTreeIndexForBridgeHandler, fmt.Sprintf("network_id=%d&deposit_count=%d", d.Net, d.Count))
+		c.Obs("after L2 reorg: l1-info-tree-index net=%d dc=%d -> %d %s", d.Net, d.Count, code, short(body))
+		if code != http.StatusOK {
+			c.Witness("index_lookup_refused_after_l2_reorg")
+			continue
+		}
+		var idx uint32
+		if err := json.Unmarshal(body, &idx); err != nil {
+			c.Failf("l1-info-tree-index/unparsable", "%s: %v: %s", who, err, short(body))
+			continue
+		}
+		sameLeaf := w.L2Deps[d.Count].LeafHash() == d.LeafHash()
+		if int(idx) >= len(leaves) || !leaves[idx].CoversL2(d.Count) || !sameLeaf {
+			c.Failf("l1-info-tree-index/does-not-cover/after-l2-reorg", "%s: /l1-info-tree-index answered %d, whose rollup exit root was verified on the dropped fork and does not contain this bridge (same leaf on both forks: %v)", who, idx, sameLeaf)
+			continue
+		}
+		c.Witness("index_lookup_answered_after_l2_reorg_for_a_bridge_both_forks_share")
+	}
 }
 
 func families(tier string) []world.Family {
